@@ -37,6 +37,31 @@ func refText(t *rapid.T, name, shape, label string) string {
 	return "%" + name + "%"
 }
 
+// refTextMany spells a pattern of 3 to 7 references in which the reference to name stands among references to
+// declared parameters (the lists of names a pattern depends on grow with the number of tokens).
+func refTextMany(t *rapid.T, c *cfg.Config, name, label string) string {
+	var declared []string
+	for _, p := range c.Params {
+		if !strings.HasPrefix(p.Name, "zz-p") {
+			declared = append(declared, p.Name)
+		}
+	}
+	n := rapid.IntRange(3, 7).Draw(t, label+"-many-n")
+	at := rapid.IntRange(0, n-1).Draw(t, label+"-many-at")
+	var sb strings.Builder
+	for i := 0; i < n; i++ {
+		ref := name
+		if i != at && len(declared) > 0 {
+			ref = rapid.SampledFrom(declared).Draw(t, label+"-many-ref")
+		}
+		if i > 0 {
+			sb.WriteString(rapid.SampledFrom([]string{"", " ", "-", "%%"}).Draw(t, label+"-many-sep"))
+		}
+		sb.WriteString("%" + ref + "%")
+	}
+	return sb.String()
+}
+
 // ensureCtorService returns the index of a service that has a constructor and is
 // not todo (adding one if necessary), so that arguments can be attached.
 func ensureCtorService(ch Chooser, c *cfg.Config, label string) int {
@@ -132,10 +157,16 @@ func InjectDanglingParam(t *rapid.T, c *cfg.Config, label string) string {
 	case "param-after-percent":
 		shape = "after-percent"
 	default:
-		shape = rapid.SampledFrom([]string{"single", "multi", "after-percent"}).Draw(t, label+"-shape")
+		shape = rapid.SampledFrom([]string{"single", "multi", "after-percent", "many"}).Draw(t, label+"-shape")
 	}
-	name := rapid.SampledFrom([]string{"zz-missing", "nope", "gone.param", "m_1"}).Draw(t, label+"-name")
-	AddReference(RapidChooser(t), c, pos, refText(t, name, shape, label), label)
+	name := rapid.SampledFrom([]string{"zz-missing", "nope", "gone.param", "m_1", "A0"}).Draw(t, label+"-name")
+	text := ""
+	if shape == "many" {
+		text = refTextMany(t, c, name, label)
+	} else {
+		text = refText(t, name, shape, label)
+	}
+	AddReference(RapidChooser(t), c, pos, text, label)
 	return "dangling-param:" + pos + ":" + shape
 }
 
